@@ -369,6 +369,9 @@ func (eng *Engine) relevantAxioms(terms []*Term, exclude string, onlyAxiomsAnd m
 			if ax.Lemma && onlyAxiomsAnd != nil && !onlyAxiomsAnd[a.name] {
 				continue
 			}
+			if isCanary(ax) {
+				continue // deliberately false statements are never hypotheses
+			}
 			hit := false
 			for s := range a.syms {
 				if syms[s] && !builtinSym(s) {
@@ -413,8 +416,9 @@ func (eng *Engine) lemmaObligation(name string) (*Obligation, error) {
 		uses[u] = true
 	}
 	o := &Obligation{Name: "lemma#" + name, Func: "lemma " + name, Kind: "lemma", PC: True, Goal: g, Text: ax.Text, exec: ex, NAssume: len(ex.assumes)}
-	hyps, _ := eng.relevantAxioms([]*Term{g}, name, uses)
+	hyps, used := eng.relevantAxioms([]*Term{g}, name, uses)
 	o.Extra = hyps
+	o.lemmaUses = used
 	o.Pos = fmt.Sprintf("%s:%d", ax.File, ax.Line)
 	return o, nil
 }
@@ -596,4 +600,13 @@ func (ex *Exec) frameObligationsLoop(fr *Frame, out *State, head *State, pre *St
 		}
 		ex.prove(key, out, "loop-frame", labelPrefix+k, goal, "only what the loop's modifies names may change: "+k, fr.fn.Pos())
 	}
+}
+
+func isCanary(ax *Axiom) bool {
+	for _, p := range ax.Props {
+		if p == "CANARY" {
+			return true
+		}
+	}
+	return false
 }
